@@ -85,18 +85,38 @@ def Stmt.mentions (k : FKind) : Stmt → Bool
   | .openW f | .writePayload f | .writeLabel f | .closeF f => f == k
   | .replace src dst => src == k || dst == k
 
-def wfSave (t : List Stmt) : Bool :=
-  -- final names are never opened / written / closed, only replaced from their temporary
+/-- structural reading of well-formedness: final names are never opened / written / closed, only replaced from
+their temporary; each temporary is opened, written completely, closed, then renamed — in this order, once; the
+pointer is switched only after the checkpoint file is in place -/
+def wfSaveStruct (t : List Stmt) : Bool :=
   t.all (fun s => match s with
     | .openW f | .writePayload f | .writeLabel f | .closeF f => f != .model && f != .last
     | .replace src dst => (src == .modelTmp && dst == .model) || (src == .lastTmp && dst == .last))
-  -- each temporary is opened, written completely, closed, then renamed — in this order, once
   && t.filter (Stmt.mentions .modelTmp)
       == [.openW .modelTmp, .writePayload .modelTmp, .closeF .modelTmp, .replace .modelTmp .model]
   && t.filter (Stmt.mentions .lastTmp)
       == [.openW .lastTmp, .writeLabel .lastTmp, .closeF .lastTmp, .replace .lastTmp .last]
-  -- the pointer is switched only after the checkpoint file is in place
   && t.idxOf (.replace .modelTmp .model) < t.idxOf (.replace .lastTmp .last)
+
+/-- all ways of merging two sequences keeping the order inside each -/
+def interleave {α} : List α → List α → List (List α)
+  | [], ys => [ys]
+  | x :: xs, ys =>
+    (List.range (ys.length + 1)).flatMap fun i => (interleave xs (ys.drop i)).map fun r => ys.take i ++ x :: r
+
+def seqModel : List Stmt := [.openW .modelTmp, .writePayload .modelTmp, .closeF .modelTmp]
+def seqLast : List Stmt := [.openW .lastTmp, .writeLabel .lastTmp, .closeF .lastTmp]
+
+/-- the well-formed save routines: the checkpoint is written completely to its temporary and renamed; the pointer
+is written completely to its temporary and renamed **after** the checkpoint's rename; the writing of the pointer's
+temporary may be interleaved in any way with what precedes -/
+def wfTables : List (List Stmt) :=
+  (List.range 4).flatMap fun i =>
+    (interleave seqModel (seqLast.take i)).map fun a =>
+      a ++ [.replace .modelTmp .model] ++ seqLast.drop i ++ [.replace .lastTmp .last]
+
+/-- **decidable well-formedness of a save table** -/
+def wfSave (t : List Stmt) : Bool := wfTables.contains t
 
 def FKind.name (it : Int) : FKind → FName
   | .model => .model it
